@@ -66,6 +66,14 @@ Fixpoint count_lf (s : string) : nat :=
 
 Definition sep_of (sparse : bool) : nat := if sparse then 1 else 0.
 
+(* what is written of a list item: a first line without text is not written at all, the item starts with
+   its next block (Project.block_md, the item writer) *)
+Definition item_body (it : list gblock) : list gblock :=
+  match it with
+  | (GPlain [] | GPara []) :: rest => rest
+  | _ => it
+  end.
+
 (* lines of [block_md]'s text of a block (every line ends with a line feed) *)
 Fixpoint height (b : gblock) {struct b} : nat :=
   match b with
@@ -74,7 +82,8 @@ Fixpoint height (b : gblock) {struct b} : nat :=
   | GQuote bs => list_sum (map height bs) + pred (length bs)
   | GOList its | GBList its =>
       let sp := sep_of (is_sparse its) in
-      list_sum (map (fun it => list_sum (map height it) + sp * pred (length it)) its) + sp * pred (length its)
+      list_sum (map (fun it => list_sum (map height (item_body it)) + sp * pred (length (item_body it))) its)
+      + sp * pred (length its)
   | GTable _ _ _ => 1
   end.
 
@@ -98,7 +107,7 @@ Fixpoint rr_block (o : opts) (k : nat) (b : gblock) {struct b} : dblock :=
   let fix goi (sp k : nat) (its : list (list gblock)) {struct its} : list (list dblock) :=
     match its with
     | [] => []
-    | it :: r => go sp k it :: goi sp (k + heights sp it + sp) r
+    | it :: r => go sp k (item_body it) :: goi sp (k + heights sp (item_body it) + sp) r
     end in
   match b with
   | GPlain l | GPara l => DPara (k, k + 1) (rr_inlines o l)
@@ -295,6 +304,15 @@ Fixpoint no_adjacent_quotes (l : list gblock) : bool :=
   | _ => true
   end.
 
+(* an item without text: what may stand right after the marker (a paragraph or heading there would be
+   read as the item's text, a list alone as items of the enclosing list) *)
+Definition headless_start (x : gblock) (rest : list gblock) : bool :=
+  match x with
+  | GCode _ _ | GQuote _ | GRule => true
+  | GBList _ | GOList _ => match rest with [] => false | _ => true end
+  | _ => false
+  end.
+
 Fixpoint safe_block (o : opts) (b : gblock) {struct b} : bool :=
   let fix go (l : list gblock) {struct l} : bool :=
     match l with [] => true | x :: r => safe_block o x && go r end in
@@ -303,12 +321,18 @@ Fixpoint safe_block (o : opts) (b : gblock) {struct b} : bool :=
     | [] => true
     | it :: r =>
         match it with
-        | (GPlain _ | GPara _) :: rest =>
+        | (GPlain [] | GPara []) :: x :: rest =>
+            (* the item starts with its second block (written right after the marker): a code block, a
+               quote, a rule, or a list that more blocks follow *)
+            headless_start x rest &&
+            negb (tight && existsb is_rule_or_table rest) && (negb tight || no_adjacent_quotes (x :: rest)) &&
+            no_adjacent_lists (x :: rest) && go (x :: rest)
+        | (GPlain (_ :: _) | GPara (_ :: _)) :: rest =>
             (* a rule right under the text of a tight item is a setext underline *)
             negb (tight && existsb is_rule_or_table rest) && (negb tight || no_adjacent_quotes rest) &&
-            no_adjacent_lists it
+            no_adjacent_lists it && go it
         | _ => false
-        end && go it && goi tight r
+        end && goi tight r
     end in
   match b with
   | GPlain l | GPara l => safe_line o l
